@@ -148,7 +148,7 @@ def gen_children_seq(rng, model, n, allow_nn, maxlen=5):
         return {"noniter": rng.choice(("int", "none", "zero"))}, "list", "noniter"
     if rng.random() < 0.5:
         rng.shuffle(xs)
-    container = wchoice(rng, (("list", 5), ("tuple", 2), ("gen", 2), ("iter", 1)))
+    container = wchoice(rng, (("list", 5), ("tuple", 2), ("gen", 2), ("iter", 1), ("shared", 2)))
     return xs, container, role
 
 
@@ -173,6 +173,12 @@ def materialise_children(world, spec, container):
         return (x for x in items)
     if container == "iter":
         return iter(items)
+    if container == "shared":
+        # one list object per world, refilled in place and handed in again: a caller that keeps its own
+        # list of children and re-assigns it after editing it (the sequence's identity says nothing)
+        lst = world.__dict__.setdefault("shared_children_list", [])
+        lst[:] = items
+        return lst
     return items
 
 
